@@ -1855,6 +1855,15 @@ func (bc *Blockchain) AddBlock(block *block.Block) error {
 		if !block.MerkleRoot.Equals(merkle) {
 			return errors.New("invalid block: MerkleRoot mismatch")
 		}
+		// The Merkle tree duplicates the last leaf of an odd level, so the
+		// root doesn't tell a list from the one with its tail repeated.
+		seen := make(map[util.Uint256]struct{}, len(block.Transactions))
+		for _, tx := range block.Transactions {
+			if _, ok := seen[tx.Hash()]; ok {
+				return fmt.Errorf("invalid block: duplicate transaction %s", tx.Hash().StringLE())
+			}
+			seen[tx.Hash()] = struct{}{}
+		}
 		mp = mempool.New(len(block.Transactions), false, nil)
 		for _, tx := range block.Transactions {
 			var err error
